@@ -531,6 +531,12 @@ const concretiseCap = 8
 
 // concretise enumerates the feasible values of a BV term (≤ cap).
 func (p *pathRun) concretise(t *Term, kind string) uint64 {
+	return p.concretisePref(t, kind, nil)
+}
+
+// concretisePref is concretise with a list of preferred values that are
+// tried (in order) before the solver is asked for an arbitrary one.
+func (p *pathRun) concretisePref(t *Term, kind string, prefs []uint64) uint64 {
 	if t.IsConst {
 		return t.CBits
 	}
@@ -549,21 +555,50 @@ func (p *pathRun) concretise(t *Term, kind string) uint64 {
 	p.pos++
 	// ask for a value outside excl
 	v := mkVar(fmt.Sprintf("cz_%d", t.ID), t.Sort)
-	p.solver.Push()
-	p.solver.Assert(tEq(v, t))
-	for _, e := range excl {
-		p.solver.Assert(tNot(tEq(t, mkBV(t.Sort.W, e))))
-	}
-	r := p.solver.Check()
+	var r Result = Unknown
 	var val uint64
-	if r == Sat {
-		m, err := p.solver.Model([]*Term{v})
-		if err != nil {
-			r = Unknown
+	tried := false
+	for _, pv := range prefs {
+		skip := false
+		for _, e := range excl {
+			if e == pv&mask(t.Sort.W) {
+				skip = true
+			}
 		}
-		val = m[v]
+		if skip {
+			continue
+		}
+		if p.checkWith(tEq(t, mkBV(t.Sort.W, pv))) == Sat {
+			r, val, tried = Sat, pv&mask(t.Sort.W), true
+			break
+		}
 	}
-	p.solver.Pop()
+	if !tried {
+		useFB := (t.FP || p.pcFP) && p.worker.fallback() != nil
+		sv := p.solver
+		if useFB {
+			sv = p.worker.fallback()
+			sv.Push()
+			for _, pt := range p.pcTerms {
+				sv.Assert(pt)
+			}
+		} else {
+			sv.Push()
+		}
+		sv.Assert(tEq(v, t))
+		for _, e := range excl {
+			sv.Assert(tNot(tEq(t, mkBV(t.Sort.W, e))))
+		}
+		r = sv.Check()
+		if r == Sat {
+			m, err := sv.Model([]*Term{v})
+			if err != nil {
+				r = Unknown
+			}
+			val = m[v]
+		}
+		sv.Pop()
+	}
 	switch r {
 	case Unsat:
 		panic(pathEnd{"vacuous", "concretise: no further value"})
